@@ -1,11 +1,24 @@
 import NmVerif.Arr
 import NmVerif.Lemmas.Addressing
+import NmVerif.Props.C03
+import NmVerif.Props.C04
+import NmVerif.Props.C06
+import NmVerif.Props.C07
+import NmVerif.Props.C08
+import NmVerif.Props.C17
 /-
   C02 — Element access through arrays and views never leaves the operands' storage.
 
   General part (this file, top): in-bounds-ness composes through view chains of any depth and turns into
   "buffer position < buffer length" at the leaf for both layouts.  The per-view-kind obligations
-  (`X_inBounds`) are proved next to each kind's model (Props.C03/C04/C05/C06/C08 …) and re-exported below.
+  (`X_inBounds`) are proved next to each kind's model (Props.C03/C04/C06/C07/C08/C17 …) and re-exported below,
+  one section per owning property (a further property module — C05 slice, C12 SIMD access intervals, C16 — adds
+  its own section here and its names to `C02.expected`; nothing else changes).
+
+  What is NOT in this file: the intra-object layout of the real buffers (`std::array` members, `static_vector`
+  storage) and the real allocation sizes.  The theorems say "multi-index inside the shape" and "offset < length of
+  the modelled buffer"; that the compiled code obeys them is observed by ASan/UBSan/_GLIBCXX_ASSERTIONS and by
+  the NMTOOLS_VERIF hooks in the correspondence run (lib/props/c02.py).
 -/
 namespace NmVerif.Props.C02
 open NmVerif
@@ -91,5 +104,477 @@ theorem computeIndices_length (off : Nat) (s st : List Nat) (hl : st.length = s.
 theorem indices_len_le_bound (s : Shape) (off cap : Nat) (h : s.length ≤ cap) : (ndindex s off).length ≤ cap := by
   unfold ndindex
   rw [computeIndices_length off s _ (strides_length s)]; exact h
+
+
+/-! ## trees: a two-operand view over two sub-views (concatenate / stack family over views) -/
+
+/-- a two-operand view whose operands are themselves views -/
+def comp2 (v : Index.IxView2) (va vb : IxView) : Index.IxView2 :=
+  ⟨va.src, vb.src, v.dst, fun d => (v.map d).bind (fun p =>
+    if p.1 then (vb.map p.2).map (fun i => (true, i)) else (va.map p.2).map (fun i => (false, i)))⟩
+
+theorem comp2_inBounds (v : Index.IxView2) (va vb : IxView) (ha : v.srcA = va.dst) (hb : v.srcB = vb.dst)
+    (hv : v.InBounds) (hva : va.InBounds) (hvb : vb.InBounds) : (comp2 v va vb).InBounds := by
+  intro d hd b i hm
+  simp only [comp2] at hm hd ⊢
+  cases hmv : v.map d with
+  | none => simp [hmv] at hm
+  | some p =>
+    obtain ⟨pb, pi⟩ := p
+    have hp := hv d hd pb pi hmv
+    simp only [hmv, Option.bind_some] at hm
+    cases pb with
+    | true =>
+      simp only [if_true, Option.map_eq_some_iff, Prod.mk.injEq] at hm hp
+      obtain ⟨j, hj, hbj, hij⟩ := hm
+      subst hbj; subst hij
+      simpa using hvb pi (hb ▸ hp) j hj
+    | false =>
+      simp only [Bool.false_eq_true, if_false, Option.map_eq_some_iff, Prod.mk.injEq] at hm hp
+      obtain ⟨j, hj, hbj, hij⟩ := hm
+      subst hbj; subst hij
+      simpa using hva pi (ha ▸ hp) j hj
+
+/-- an indexing view over a two-operand view -/
+def compOver2 (outer : IxView) (v : Index.IxView2) : Index.IxView2 :=
+  ⟨v.srcA, v.srcB, outer.dst, fun d => (outer.map d).bind v.map⟩
+
+theorem compOver2_inBounds (outer : IxView) (v : Index.IxView2) (h : outer.src = v.dst)
+    (ho : outer.InBounds) (hv : v.InBounds) : (compOver2 outer v).InBounds := by
+  intro d hd b i hm
+  simp only [compOver2] at hm hd ⊢
+  cases hmo : outer.map d with
+  | none => simp [hmo] at hm
+  | some k =>
+    simp only [hmo, Option.bind_some] at hm
+    exact hv k (h ▸ ho d hd k hmo) b i hm
+
+/-! ## per-view-kind obligations, re-exported from the owning property
+
+Every theorem below has the statement of the theorem of the same name in the owning module and is closed by it. -/
+
+section C03
+open NmVerif
+
+theorem transpose_inBounds (src : Shape) (ax : List Int) (p : List Nat) (v : IxView)
+    (hn : normalizeAxes src.length ax = some p) (hperm : p.Perm (List.range src.length))
+    (hv : transposeView src (some ax) = some v) : v.InBounds :=
+  C03.transpose_inBounds src ax p v hn hperm hv
+
+theorem transpose_default_inBounds (src : Shape) (v : IxView) (hv : transposeView src none = some v) :
+    v.InBounds := C03.transpose_default_inBounds src v hv
+
+theorem reshape_inBounds (src : Shape) (dst : List Int) (v : IxView) (hs : Pos src)
+    (hv : reshapeView src dst = some v) : v.InBounds := C03.reshape_inBounds src dst v hs hv
+
+theorem flatten_inBounds (src : Shape) (v : IxView) (hs : Pos src) (hv : flattenView src = some v) : v.InBounds :=
+  C03.reshape_inBounds src _ v hs hv
+
+theorem squeeze_inBounds (src : Shape) (v : IxView) (hs : Pos src) (hv : squeezeView src = some v) : v.InBounds :=
+  C03.reshape_inBounds src _ v hs hv
+
+theorem atleastNd_inBounds (src : Shape) (nd : Nat) (v : IxView) (hs : Pos src) (hv : atleastNdView src nd = some v) :
+    v.InBounds := C03.reshape_inBounds src _ v hs hv
+
+theorem expandDims_inBounds (src : Shape) (ax : List Int) (v : IxView) (hs : Pos src)
+    (hv : expandDimsView src ax = some v) : v.InBounds := by
+  simp only [expandDimsView, Option.bind_eq_some_iff] at hv
+  obtain ⟨s, _, h⟩ := hv
+  exact C03.reshape_inBounds src _ v hs h
+
+theorem flip_inBounds (src : Shape) (axes : Option (List Int)) (v : IxView)
+    (hv : flipView src axes = some v) : v.InBounds := C03.flip_inBounds src axes v hv
+
+theorem swapaxes_inBounds (src : Shape) (a1 a2 : Int) (m1 m2 : Nat) (v : IxView)
+    (h1 : normalizeAxis src.length a1 = some m1) (h2 : normalizeAxis src.length a2 = some m2) (hs : Pos src)
+    (hv : swapaxesView src a1 a2 = some v) : v.InBounds := by
+  obtain ⟨w, hw, _, _, _, _, hb, _⟩ := C03.swapaxes_eq_spec (⟨src, fun _ => 0⟩ : Arr Nat) 0 a1 a2 m1 m2 h1 h2 hs
+  have hw' : swapaxesView src a1 a2 = some w := hw
+  rw [hv] at hw'; cases hw'; exact hb
+
+theorem moveaxis_inBounds (src : Shape) (source destination : List Int) (nsrc ndst : List Nat) (v : IxView)
+    (hsn : normalizeAxes src.length source = some nsrc) (hdn : normalizeAxes src.length destination = some ndst)
+    (hlen : nsrc.length = ndst.length) (hns : nsrc.Nodup) (hnd : ndst.Nodup) (hs : Pos src)
+    (hv : moveaxisView src source destination = some v) : v.InBounds := by
+  obtain ⟨_, w, hw, _, _, _, _, _, _, _, hb, _⟩ :=
+    C03.moveaxis_eq_spec (⟨src, fun _ => 0⟩ : Arr Nat) 0 source destination nsrc ndst hsn hdn hlen hns hnd hs
+  have hw' : moveaxisView src source destination = some w := hw
+  rw [hv] at hw'; cases hw'; exact hb
+
+end C03
+
+section C04
+open NmVerif NmVerif.Index
+
+theorem tile_inBounds (s r : List Nat) (v : IxView) (hv : tileView s r = some v) (hs : Pos s) : v.InBounds :=
+  C04.tile_inBounds s r v hv hs
+
+theorem pad_inBounds (s before after : List Nat) (hb : before.length = s.length) (ha : after.length = s.length)
+    (v : IxView) (hv : padView s (before ++ after) = some v) : v.InBounds :=
+  C04.pad_inBounds s before after hb ha v hv
+
+theorem take_inBounds (s : Shape) (ind : List Int) (k : Nat) (hk : k < s.length)
+    (hind : ∀ e ∈ ind, 0 ≤ e ∧ e < (s[k] : Int)) (v : IxView)
+    (hv : takeView s ind (some (k : Int)) = some v) : v.InBounds := C04.take_inBounds s ind k hk hind v hv
+
+theorem takeNone_inBounds (s : Shape) (hs : Pos s) (ind : List Int) (v : IxView) (hv : takeView s ind none = some v) :
+    v.InBounds := C04.takeNone_inBounds s hs ind v hv
+
+theorem repeat_inBounds (s : Shape) (r k : Nat) (hk : k < s.length) (v : IxView)
+    (hv : repeatView s r (some (k : Int)) = some v) : v.InBounds := C04.repeat_inBounds s r k hk v hv
+
+theorem repeatNone_inBounds (s : Shape) (hs : Pos s) (r : Nat) (v : IxView) (hv : repeatView s r none = some v) :
+    v.InBounds := C04.repeatNone_inBounds s hs r v hv
+
+theorem repeatList_inBounds (s : Shape) (rs : List Nat) (k : Nat) (hk : k < s.length) (hrs : rs.length = s[k])
+    (v : IxView) (hv : repeatListView s rs (k : Int) = some v) : v.InBounds :=
+  C04.repeatList_inBounds s rs k hk hrs v hv
+
+theorem concatenate_inBounds (a b : Shape) (k : Nat) (h : ConcatCompatible a b k) (v : IxView2)
+    (hv : concatenateView a b (some (k : Int)) = some v) : v.InBounds := C04.concatenate_inBounds a b k h v hv
+
+theorem concatenateNone_inBounds (a b : Shape) (ha : Pos a) (hb : Pos b) (v : IxView2)
+    (hv : concatenateView a b none = some v) : v.InBounds := C04.concatenateNone_inBounds a b ha hb v hv
+
+theorem roll_inBounds (s : Shape) (shift axis : Int) (k : Nat) (hk : normalizeAxis1 axis s.length = some k)
+    (v : IxView) (hv : rollView s shift axis = some v) : v.InBounds := C04.roll_inBounds s shift axis k hk v hv
+
+theorem rollNone_inBounds (s : Shape) (hs : Pos s) (shift : Int)
+    (v : IxView) (hv : rollNoneView s shift = some v) : v.InBounds := C04.rollNone_inBounds s hs shift v hv
+
+theorem rollAxes_inBounds (s : Shape) (shifts axes : List Int) (ks : List Nat) (hk : AxesNorm s.length axes ks)
+    (hlen : shifts.length = axes.length) (hnd : ks.Nodup)
+    (v : IxView) (hv : rollAxesView s shifts axes = some v) : v.InBounds :=
+  C04.rollAxes_inBounds s shifts axes ks hk hlen hnd v hv
+
+theorem resize_inBounds (s t : Shape) (hs : Pos s) (v : IxView) (hv : resizeView s t = some v) : v.InBounds :=
+  C04.resize_inBounds s t hs v hv
+
+theorem compress_inBounds (s : Shape) (cond : List Int) (k : Nat) (hk : k < s.length) (hc : cond.length ≤ s[k])
+    (v : IxView) (hv : compressView s cond (some (k : Int)) = some v) : v.InBounds :=
+  C04.compress_inBounds s cond k hk hc v hv
+
+theorem expand_inBounds (s : Shape) (axis : Int) (sp k : Nat) (hk : normalizeAxis1 axis s.length = some k)
+    (v : IxView) (hv : expandView s [axis] [sp] = some v) : v.InBounds := C04.expand_inBounds s axis sp k hk v hv
+
+theorem tril_inBounds (s : Shape) (k : Int) (v : IxView) (hv : trilView s k = some v) : v.InBounds :=
+  C04.tril_inBounds s k v hv
+
+theorem triu_inBounds (s : Shape) (k : Int) (v : IxView) (hv : triuView s k = some v) : v.InBounds :=
+  C04.triu_inBounds s k v hv
+
+theorem diagflat_inBounds (s : Shape) (hs : Pos s) (k : Int) (v : IxView) (hv : diagflatView s k = some v) :
+    v.InBounds := C04.diagflat_inBounds s hs k v hv
+
+theorem slidingWindow_inBounds (s : Shape) (w : Nat) (axis : Int) (k e : Nat) (hk : normalizeAxis1 axis s.length = some k)
+    (he : s[k]? = some e) (hw1 : 1 ≤ w) (hw2 : w ≤ e)
+    (v : IxView) (hv : slidingWindowView s [w] (some [axis]) true = some v) : v.InBounds :=
+  C04.slidingWindow_inBounds s w axis k e hk he hw1 hw2 v hv
+
+theorem split_inBounds (s : Shape) (N k n : Nat) (hn : s[k]? = some n) (hdiv : N ∣ n) (ps : List IxView)
+    (hps : splitViews s (some N) [] (k : Int) = some ps) (i : Nat) (v : IxView) (hv : ps[i]? = some v) : v.InBounds :=
+  C04.split_inBounds s N k n hn hdiv ps hps i v hv
+
+/-- stack / hstack / vstack / dstack / column_stack: reshape both operands, then concatenate -/
+theorem joinReshaped_inBounds (a b a' b' : Shape) (axis : Int) (ha : Pos a) (hb : Pos b)
+    (v : IxView2) (hv : joinReshaped a b a' b' axis = some v) : v.InBounds :=
+  C04.joinReshaped_inBounds a b a' b' axis ha hb v hv
+
+/-- diagonal: only the 2-d, non-negative-offset case is proved by C04 (listed as partial there too) -/
+theorem diagonal2d_inBounds_partial (n1 n2 off : Nat) (h : off ≤ n2) (v : IxView)
+    (hv : diagonalView [n1, n2] (off : Int) 0 1 = some v) : v.InBounds :=
+  C04.diagonal2d_inBounds_partial n1 n2 off h v hv
+
+end C04
+
+section C06
+open NmVerif
+
+theorem broadcastTo_inBounds (src dst : Shape) (v : IxView) (h : broadcastToView src dst = some v) : v.InBounds :=
+  C06.broadcastTo_inBounds src dst v h
+
+private theorem mem_of_mapM {α β} (f : α → Option β) (l : List α) (vs : List β) (h : l.mapM f = some vs) :
+    ∀ v ∈ vs, ∃ x ∈ l, f x = some v := by
+  induction l generalizing vs with
+  | nil => simp at h; subst h; simp
+  | cons a t ih =>
+    rw [mapM_cons_opt] at h
+    cases hfa : f a with
+    | none => simp [hfa] at h
+    | some b =>
+      cases ht : t.mapM f with
+      | none => simp [hfa, ht] at h
+      | some r =>
+        simp [hfa, ht] at h
+        subst h
+        intro v hv
+        simp only [List.mem_cons] at hv
+        rcases hv with rfl | hv
+        · exact ⟨a, by simp, hfa⟩
+        · obtain ⟨x, hx, hfx⟩ := ih r ht v hv
+          exact ⟨x, by simp [hx], hfx⟩
+
+/-- every view produced by `broadcast_arrays` reads its own operand in bounds -/
+theorem broadcastArrays_inBounds (ss : List Shape) (vs : List IxView) (h : broadcastArraysViews ss = some vs) :
+    ∀ v ∈ vs, v.InBounds := by
+  unfold broadcastArraysViews at h
+  simp only [Option.bind_eq_some_iff] at h
+  obtain ⟨r, _, hvs⟩ := h
+  intro v hv
+  obtain ⟨s, _, hs⟩ := mem_of_mapM _ _ _ hvs v hv
+  exact C06.broadcastTo_inBounds s r v hs
+
+end C06
+
+section C07
+open NmVerif NmVerif.Props.C06
+
+/-- element-wise functions (any arity): every operand is read inside its own shape -/
+theorem ufunc_reads_inBounds {α β : Type} (op : List α → β) (as : List (Arr α)) (u : Arr (Option β))
+    (h : ufunc op as = some u) (d : Idx) (hd : InShape d u.shape) :
+    ∀ a ∈ as, InShape (specBroadcastIdx a.shape d) a.shape := C07.ufunc_reads_inBounds op as u h d hd
+
+end C07
+
+section C08
+open NmVerif
+
+theorem reduce_inBounds (s : Shape) (hs : Pos s) (axis : Reduce.AxisArg) (keep : Bool)
+    (hv : Reduce.ValidAxes s.length axis) (j : Idx)
+    (hj : InShape j (Reduce.specShape s (Reduce.axisSet s.length axis) keep)) :
+    ∃ r, Reduce.reduceReads s axis keep j = some r ∧ ∀ i ∈ r, InShape i s :=
+  C08.reduce_inBounds s hs axis keep hv j hj
+
+theorem accumulate_inBounds (s : Shape) (ax : Nat) (hax : ax < s.length) (d : Idx) (hd : InShape d s) :
+    ∃ r, Reduce.accumulateReads s (ax : Int) d = some r ∧ ∀ i ∈ r, InShape i s :=
+  C08.accumulate_inBounds s ax hax d hd
+
+end C08
+
+section C17
+open NmVerif NmVerif.NN
+
+/-- pooling windows (incl. the clipped overhang of ceil mode) stay inside the input -/
+theorem pool_window_in_bounds (lead li : List Nat) (H W kh kw sh sw i j : Nat) (ceil : Bool)
+    (hH : PoolDom H kh sh ceil) (hW : PoolDom W kw sw ceil)
+    (hidx : InShape (li ++ [i, j]) (lead ++ [poolExtent H kh sh ceil, poolExtent W kw sw ceil]))
+    (hli : InShape li lead) :
+    ∃ win, poolWindow (lead ++ [H, W]) [kh, kw] [sh, sw] (li ++ [i, j]) = some win
+      ∧ win ≠ [] ∧ ∀ x ∈ win, InShape x (lead ++ [H, W]) :=
+  C17.pool_window_in_bounds lead li H W kh kw sh sw i j ceil hH hW hidx hli
+
+end C17
+
+section Chains
+open NmVerif NmVerif.Index
+
+/-! ## concrete chains (non-vacuity of `chain_read_in_buffer`) -/
+
+/-- depth 3: `transpose(tile(reshape(a, tgt), reps), axes)` -/
+theorem depth3_transpose_tile_reshape_in_buffer {α : Type} (s : Shape) (tgt : List Int) (reps : List Nat)
+    (ax : List Int) (p : List Nat) (r t o : IxView) (hs : Pos s)
+    (hr : reshapeView s tgt = some r) (ht : tileView r.dst reps = some t)
+    (hn : normalizeAxes t.dst.length ax = some p) (hperm : p.Perm (List.range t.dst.length))
+    (ho : transposeView t.dst (some ax) = some o)
+    (a : NDA α) (hw : a.WF) (hsh : a.shape = s)
+    (d : Idx) (hd : InShape d o.dst) (i : Idx) (hm : (compAll o [t, r]).map d = some i) :
+    a.offset i < a.data.length := by
+  have hrb := reshape_inBounds s tgt r hs hr
+  have hrs : r.src = s := by
+    simp only [reshapeView, Option.map_eq_some_iff] at hr
+    obtain ⟨_, _, rfl⟩ := hr; rfl
+  have hrpos : Pos r.dst := by
+    simp only [reshapeView, Option.map_eq_some_iff] at hr
+    obtain ⟨q, hq, rfl⟩ := hr
+    exact pos_of_prod_pos q (by rw [shapeReshape_prod s tgt q hs hq]; exact prod_pos hs)
+  have htb := tile_inBounds r.dst reps t ht hrpos
+  have hts : t.src = r.dst := by
+    simp only [tileView, Option.some.injEq] at ht; subst ht; rfl
+  have hob := transpose_inBounds t.dst ax p o hn hperm ho
+  have hos : o.src = t.dst := by
+    obtain ⟨w, hw', hsrc, _⟩ := C03.transpose_eq_spec t.dst ax p hn hperm
+    rw [ho] at hw'; cases hw'; exact hsrc
+  have hc : ChainOk [o, t, r] := ⟨hob, hos, htb, hts, hrb⟩
+  refine chain_read_in_buffer o [t, r] hc a hw ?_ d ?_ i hm
+  · simp [compAll, IxView.comp, hrs, hsh]
+  · simpa [compAll, IxView.comp] using hd
+
+/-- depth 3 with a fill stage: `flip(pad(broadcast_to(a, shape), widths), axes)` — no positivity needed -/
+theorem depth3_flip_pad_broadcast_in_buffer {α : Type} (s dst before after : List Nat) (axes : Option (List Int))
+    (b p f : IxView) (hb : broadcastToView s dst = some b)
+    (hbl : before.length = dst.length) (hal : after.length = dst.length)
+    (hp : padView dst (before ++ after) = some p) (hf : flipView p.dst axes = some f)
+    (a : NDA α) (hw : a.WF) (hsh : a.shape = s)
+    (d : Idx) (hd : InShape d f.dst) (i : Idx) (hm : (compAll f [p, b]).map d = some i) :
+    a.offset i < a.data.length := by
+  have hbb := broadcastTo_inBounds s dst b hb
+  obtain ⟨hbs, hbd⟩ : b.src = s ∧ b.dst = dst := by
+    simp only [broadcastToView, Option.map_eq_some_iff] at hb
+    obtain ⟨_, _, rfl⟩ := hb; exact ⟨rfl, rfl⟩
+  have hpb := pad_inBounds dst before after hbl hal p hp
+  have hps : p.src = dst := by
+    simp only [padView, Option.map_eq_some_iff] at hp
+    obtain ⟨_, _, rfl⟩ := hp; rfl
+  have hfb := flip_inBounds p.dst axes f hf
+  have hfs : f.src = p.dst := by
+    simp only [flipView, Option.some.injEq] at hf; subst hf; rfl
+  have hc : ChainOk [f, p, b] := ⟨hfb, hfs, hpb, by rw [hps, hbd], hbb⟩
+  refine chain_read_in_buffer f [p, b] hc a hw ?_ d ?_ i hm
+  · simp [compAll, IxView.comp, hbs, hsh]
+  · simpa [compAll, IxView.comp] using hd
+
+/-! non-vacuity: the hypotheses hold on concrete values and the chain really reads the claimed element -/
+example : (do
+    let r ← reshapeView [2,3] [3,-1]
+    let t ← tileView r.dst [2,1,2]
+    let o ← transposeView t.dst (some [2,0,-2])
+    pure ((compAll o [t, r]).dst, (compAll o [t, r]).map [3,1,2])) = some ([4,2,3], some [1,2]) := by decide
+example : normalizeAxes 3 [2,0,-2] = some [2,0,1] ∧ [2,0,1].Perm (List.range 3) := by decide
+example : (do
+    let b ← broadcastToView [3,1] [2,3,2]
+    let p ← padView b.dst ([1,0,1] ++ [0,2,0])
+    let f ← flipView p.dst (some [0,2])
+    pure ((compAll f [p, b]).dst, (compAll f [p, b]).map [0,1,0], (compAll f [p, b]).map [2,0,0])) =
+    some ([3,5,3], some [1,0], none) := by decide
+
+/-! ## capacity: a result container sized by the operands' bound is never asked to hold more
+
+The C++ result type of these index functions is, for bounded operands, `static_vector<_, B>` with `B` the bound
+of the operand (resp. the larger of the two operands' bounds).  Each theorem: the number of entries the function
+writes is at most that bound. -/
+
+theorem shapeTranspose_len_le_cap (s : Shape) (axes : Option (List Int)) (r : Shape) (cap : Nat)
+    (h : shapeTranspose s axes = some r) (hc : s.length ≤ cap) : r.length ≤ cap := by
+  cases axes with
+  | none => simp only [shapeTranspose, Option.some.injEq] at h; subst h; simpa using hc
+  | some ax =>
+    simp only [shapeTranspose] at h
+    split at h
+    · rename_i hl
+      rw [mapM_some_length _ _ _ h, hl]; exact hc
+    · cases h
+
+theorem shapeReshape_len_le_cap (src : Shape) (dst : List Int) (r : Shape) (cap : Nat)
+    (h : shapeReshape src dst = some r) (hc : dst.length ≤ cap) : r.length ≤ cap := by
+  simp only [shapeReshape] at h
+  split at h
+  · cases h
+  · split at h
+    · cases h
+    · split at h
+      · cases h
+      · simp only [Option.some.injEq] at h; subst h; simpa using hc
+
+private theorem bcRev_length (a b r : List Nat) (h : bcRev a b = some r) : r.length = max a.length b.length := by
+  induction a generalizing b r with
+  | nil => simp only [bcRev, Option.some.injEq] at h; subst h; simp
+  | cons x xs ih =>
+    cases b with
+    | nil => simp only [bcRev, Option.some.injEq] at h; subst h; simp
+    | cons y ys =>
+      simp only [bcRev] at h
+      cases hb : bc1 x y with
+      | none => simp [hb] at h
+      | some z =>
+        simp only [hb, Option.map_eq_some_iff] at h
+        obtain ⟨q, hq, rfl⟩ := h
+        simp only [List.length_cons, ih ys q hq]; omega
+
+theorem broadcastShape_len_le_cap (a b r : Shape) (capA capB : Nat) (h : broadcastShape2 a b = some r)
+    (ha : a.length ≤ capA) (hb : b.length ≤ capB) : r.length ≤ max capA capB := by
+  simp only [broadcastShape2, Option.map_eq_some_iff] at h
+  obtain ⟨q, hq, rfl⟩ := h
+  have := bcRev_length _ _ _ hq
+  simp only [List.length_reverse] at this ⊢
+  omega
+
+theorem shapeTile_len_le_cap (s reps : List Nat) (capS capR : Nat) (hs : s.length ≤ capS) (hr : reps.length ≤ capR) :
+    (shapeTile s reps).length ≤ max capS capR := by
+  rw [shapeTile_length]; omega
+
+private theorem removeDimsLoop_length_le (p : Nat → Bool) (keep : Bool) (i : Nat) (s : Shape) :
+    (Reduce.removeDimsLoop p keep i s).length ≤ s.length := by
+  induction s generalizing i with
+  | nil => simp [Reduce.removeDimsLoop]
+  | cons a t ih =>
+    simp only [Reduce.removeDimsLoop]
+    split
+    · have := ih (i+1); simp; omega
+    · have := ih (i+1); simp; omega
+
+theorem removeDims_len_le_cap (s : Shape) (axis : Reduce.AxisArg) (keep : Bool) (r : Shape) (cap : Nat)
+    (h : Reduce.removeDims s axis keep = some r) (hc : s.length ≤ cap) : r.length ≤ cap := by
+  unfold Reduce.removeDims at h
+  have hl := removeDimsLoop_length_le
+  cases hu : Reduce.unwrapAxes s.length axis with
+  | none => simp [hu] at h
+  | some ax =>
+    by_cases hk : keep = true
+    · simp [hu, hk] at h; subst h; exact Nat.le_trans (hl _ _ _ _) hc
+    · simp [hu, hk] at h
+      obtain ⟨_, rfl⟩ := h
+      exact Nat.le_trans (hl _ _ _ _) hc
+
+private theorem shapeConcatLoop_length_le (axis : Int) (i : Nat) (a b : Shape) :
+    (shapeConcatLoop axis i a b).2.length ≤ a.length := by
+  induction a generalizing i b with
+  | nil => simp [shapeConcatLoop]
+  | cons x xs ih =>
+    cases b with
+    | nil => simp [shapeConcatLoop]
+    | cons y ys =>
+      simp only [shapeConcatLoop]
+      have := ih (i+1) ys
+      split
+      · simp; omega
+      · split
+        · simp; omega
+        · simp
+
+theorem shapeConcatenate_len_le_cap (a b : Shape) (axis : Int) (cap : Nat) (hc : a.length ≤ cap) :
+    (shapeConcatenate a b axis).2.length ≤ cap := by
+  simp only [shapeConcatenate]
+  split
+  · exact Nat.le_trans (shapeConcatLoop_length_le axis 0 a b) hc
+  · simpa using hc
+
+theorem shapePad_len_le_cap (s widths r : List Nat) (cap : Nat) (h : shapePad s widths = some r)
+    (hc : s.length ≤ cap) : r.length ≤ cap := by
+  simp only [shapePad] at h
+  split at h
+  · simp only [Option.some.injEq] at h; subst h
+    simp only [List.length_zipWith, List.length_take, List.length_drop]; omega
+  · cases h
+
+private theorem setPy_length {α} (l : List α) (i : Int) (v : α) : (setPy l i v).length = l.length := by
+  simp only [setPy]; split <;> simp
+
+theorem shapeRepeat_len_le_cap (s : Shape) (r : Nat) (axis : Int) (t : Shape) (cap : Nat)
+    (h : shapeRepeat s r axis = some t) (hc : s.length ≤ cap) : t.length ≤ cap := by
+  simp only [shapeRepeat, Option.map_eq_some_iff] at h
+  obtain ⟨_, _, rfl⟩ := h
+  rw [setPy_length]; exact hc
+
+theorem shapeRepeatList_len_le_cap (s : Shape) (rs : List Nat) (axis : Int) (t : Shape) (cap : Nat)
+    (h : shapeRepeatList s rs axis = some t) (hc : s.length ≤ cap) : t.length ≤ cap := by
+  simp only [shapeRepeatList, Option.map_eq_some_iff] at h
+  obtain ⟨_, _, rfl⟩ := h
+  rw [setPy_length]; exact hc
+
+
+/-- known finding `eval.fixed-buffer-result`: an accepted view can have MORE elements than its operand, so a result
+    container that keeps the operand's fixed capacity (what `eval()` resolves for `ndarray_t<std::array<T,N>,…>`)
+    cannot hold the result: `repeat((2,3), 2, axis 1)` has 12 elements, the operand's buffer 6 -/
+theorem eval_fixed_buffer_counterexample :
+    ∃ t, shapeRepeat [2,3] 2 1 = some t ∧ ¬ (prod t ≤ prod [2,3]) := ⟨[2,6], by decide, by decide⟩
+
+/-! non-vacuity: a rank-3 shape in a container bounded by 4, reps of length 5 in a container bounded by 8 -/
+example : (shapeTile [2,3,4] [1,2,1,2,1]).length = 5 ∧ 5 ≤ max 4 8 := by decide
+example : broadcastShape2 [3,1] [2,1,4] = some [2,3,4] := by decide
+example : shapeTranspose [2,3,4] (some [2,0,1]) = some [4,2,3] ∧ shapeReshape [2,3,4] [4,-1] = some [4,6] := by decide
+example : Reduce.removeDims [2,3,4] (some [0,-1]) false = some [3] ∧ shapePad [2,3] [1,0,0,2] = some [3,5] := by decide
+example : shapeConcatenate [2,3] [2,1] 1 = (true, [2,4]) ∧ shapeRepeat [2,3] 2 (-1) = some [2,6] := by decide
+
+end Chains
 
 end NmVerif.Props.C02
